@@ -2,6 +2,7 @@ import PhyVerif.Model.C19
 import PhyVerif.Spec.C19
 import PhyVerif.Lemmas.C19
 import PhyVerif.Lemmas.C19b
+import PhyVerif.Lemmas.C19c
 /-!
 # C19 — event dispatch follows registration order, sender filters and silencing;
 #        a progress reporter announces completion exactly once per crossing
@@ -226,5 +227,30 @@ example : (rrun RState.init [.setMax 2, .increment, .increment, .setMax 1, .setV
   isComplete RState.init = true ∧ progressFrac RState.init = none ∧
   (rstep RState.init (.setValue 3)).2.printed = [.complete] ∧
   progressFrac (rstep ⟨0, 2, false⟩ (.setValue 3)).1 = some (3, 2) := by decide
+
+/-- Connecting a callback that is not registered yet and unconnecting it again (by callback) restores the emitter state
+EXACTLY — registrations of every event in their order, silence flag, open `silent()` frames —, whether the `connect`
+registered it or raised `ValueError`; every later history therefore runs as if the pair had not happened
+(`connect_unconnect_invisible`).  The freshness hypothesis is needed: `unconnect(f)` removes EVERY registration of `f`,
+so with an earlier registration of the same function the pair removes that one too (example below). -/
+theorem connect_unconnect_inverse (result : Call → Nat) (st : EState) (r : ConnReq)
+    (hfresh : ∀ c ∈ st.cbs, c.id ≠ r.id) :
+    (estep result (estep result st (.connect r)).1 (.unconnect [.cb r.id])).1 = st :=
+  Lemmas.connect_unconnect_inverse result st r hfresh
+
+/-- … and so the pair is invisible to every continuation: same emit outcomes for every later history. -/
+theorem connect_unconnect_invisible (result : Call → Nat) (st : EState) (r : ConnReq) (ops : List EOp)
+    (hfresh : ∀ c ∈ st.cbs, c.id ≠ r.id) :
+    erun result st (.connect r :: .unconnect [.cb r.id] :: ops) = erun result st ops := by
+  have h := Lemmas.connect_unconnect_inverse result st r hfresh
+  cases hc : connectCb r <;> simp only [erun, estep, hc] at h ⊢ <;> rw [h]
+
+/-! Non-vacuity: a fresh callback; and why freshness is needed -/
+example :
+    let st : EState := ⟨[⟨"a", none, 1, none, false⟩, ⟨"b", some 4, 2, none, true⟩], true, [false]⟩
+    (estep (fun _ => 0) (estep (fun _ => 0) st (.connect ⟨"on_a", none, none, 3, none, false⟩)).1 (.unconnect [.cb 3])).1.cbs
+      = st.cbs ∧
+    (estep (fun _ => 0) (estep (fun _ => 0) st (.connect ⟨"on_a", none, none, 1, none, false⟩)).1 (.unconnect [.cb 1])).1.cbs
+      = [⟨"b", some 4, 2, none, true⟩] := by decide
 
 end PhyVerif.C19
